@@ -124,6 +124,38 @@ func c09Gen(rng *verifsim.RNG, idx int, tier string) *Plan {
 		}
 		p.Faults = append(p.Faults, Fault{Seam: "read", Err: []string{"ENETDOWN", "ENOBUFS"}[rng.Intn(2)], N: n})
 	}
+	if p.Class == "runs" && rng.Bool(0.2) {
+		// An invalid message that is out of the socket queue when the connection
+		// is given up (link change) or the daemon is stopped, its receive only
+		// returning afterwards: ignored all the same.
+		p.Class = "runs+cancel-during-receive"
+		var inv []int
+		for i, a := range p.Actions {
+			if a.Hop != nil && *a.Hop != 255 {
+				inv = append(inv, i)
+			}
+		}
+		if len(inv) > 0 {
+			a := p.Actions[inv[rng.Intn(len(inv))]]
+			lat := int64(rng.Dur(10*time.Millisecond, 800*time.Millisecond))
+			p.Faults = append(p.Faults, Fault{Seam: "read.post", From: a.At - 1000, Count: 1, Lat: lat})
+			if rng.Bool(0.6) {
+				p.Actions = append(p.Actions, Action{At: a.At + lat/2, Kind: "link", If: "eth0", Oper: "down"})
+				p.Class += "+reinit"
+			} else {
+				// the stop itself
+				var keep []Action
+				for _, b := range p.Actions {
+					if b.At <= a.At+lat/2 {
+						keep = append(keep, b)
+					}
+				}
+				p.Actions = keep
+				p.Horizon = a.At + lat/2
+				return p
+			}
+		}
+	}
 	maybeReinit(rng, p, "eth0", 50*nsMs, t, 0.2)
 	p.Horizon = t + 3*nsSec
 	return p
